@@ -106,7 +106,8 @@ func init() {
 					p.Consumer = Pick(r, []string{"", "early"})
 				}
 				if r.Chance(0.4) {
-					p.Faults = append(p.Faults, &Fault{Op: Pick(r, []string{"get", "get", "read", "any"}), Prefix: Pick(r, []string{"", "blkidx/", "blk/", "tblidx/"}), Nth: r.Range(1, 8)})
+					// transient, or persistent from the Nth read on (every goroutine of the pipeline then fails)
+					p.Faults = append(p.Faults, &Fault{Op: Pick(r, []string{"get", "get", "read", "any"}), Prefix: Pick(r, []string{"", "blkidx/", "blk/", "tblidx/"}), Nth: r.Range(1, 8), Sticky: r.Chance(0.4)})
 				}
 				return p
 			}
